@@ -210,25 +210,33 @@ Proof.
     destruct (ar && (c_threshold c <=? z0)) eqn:EA; [|discriminate]. inversion EU; subst z0.
     apply andb_true_iff in EA as [_ ET]. apply Z.leb_le in ET. apply Z.ltb_ge in EG.
     destruct (run_parallel valid c url (compute_ranges z (c_chunk c)) (s_tasks sc) (s_rounds sc)) as [r' st] eqn:ER.
+    assert (HP : fst (probe valid c url presigned (s_probe sc)) = PInfo (Some z) ar ce) by (rewrite EP; reflexivity).
     destruct r' as [d|e].
     + destruct (post_decode c dec ce d) as [r2 dc] eqn:EPD. intros H; inversion H; subst; simpl. split; auto.
-      eapply ShParallel with (r' := ROk d); simpl; eauto. rewrite EP; reflexivity.
+      eapply ShParallel with (z := z) (ar := ar) (ce := ce) (r' := ROk d) (st := st);
+        [exact HP | exact EG | exact ET | exact ER | reflexivity | reflexivity | reflexivity | simpl; exact EPD].
     + intros H; inversion H; subst; simpl. split; auto.
-      eapply ShParallel with (r' := RErr e); simpl; eauto. rewrite EP; reflexivity.
-  - destruct (follow valid (c_max_redir c) 0%N url (s_get sc)) as [rs tr|e tr] eqn:EF.
+      eapply ShParallel with (z := z) (ar := ar) (ce := ce) (r' := RErr e) (st := st);
+        [exact HP | exact EG | exact ET | exact ER | reflexivity | reflexivity | reflexivity | simpl; auto].
+  - assert (HP : fst (probe valid c url presigned (s_probe sc)) = PInfo cl ar ce) by (rewrite EP; reflexivity).
+    destruct (follow valid (c_max_redir c) 0%N url (s_get sc)) as [rs tr|e tr] eqn:EF.
     + destruct (negb (is_2xx (r_status rs))) eqn:E2.
       * intros H; inversion H; subst; simpl. split; auto.
-        eapply ShSingle with (fr := FOk rs tr); simpl; eauto; [rewrite EP; reflexivity|].
-        exists 0. rewrite E2. auto.
+        eapply ShSingle with (cl := cl) (ar := ar) (ce := ce) (fr := FOk rs tr);
+          [exact HP | symmetry; exact EF | reflexivity | reflexivity |].
+        exists 0. simpl. rewrite E2. auto.
       * destruct (read_single (c_max_fetch c) 0 [] (iter_chunked io_chunk (r_units rs)) (r_berr rs)) as [[d|e] n] eqn:ERS.
         -- destruct (post_decode c dec (if r_cenc rs =? 0 then ce else r_cenc rs) d) as [r2 dc] eqn:EPD.
            intros H; inversion H; subst; simpl. split; auto.
-           eapply ShSingle with (fr := FOk rs tr); simpl; eauto; [rewrite EP; reflexivity|].
-           exists n. rewrite E2, ERS. auto.
+           eapply ShSingle with (cl := cl) (ar := ar) (ce := ce) (fr := FOk rs tr);
+             [exact HP | symmetry; exact EF | reflexivity | reflexivity |].
+           exists n. simpl. rewrite E2, ERS. auto.
         -- intros H; inversion H; subst; simpl. split; auto.
-           eapply ShSingle with (fr := FOk rs tr); simpl; eauto; [rewrite EP; reflexivity|].
-           exists n. rewrite E2, ERS. auto.
+           eapply ShSingle with (cl := cl) (ar := ar) (ce := ce) (fr := FOk rs tr);
+             [exact HP | symmetry; exact EF | reflexivity | reflexivity |].
+           exists n. simpl. rewrite E2, ERS. auto.
     + intros H; inversion H; subst; simpl. split; auto.
-      eapply ShSingle with (fr := FErr e tr); simpl; eauto; [rewrite EP; reflexivity|].
-      exists 0. auto.
+      eapply ShSingle with (cl := cl) (ar := ar) (ce := ce) (fr := FErr e tr);
+        [exact HP | symmetry; exact EF | reflexivity | reflexivity |].
+      exists 0. simpl. auto.
 Qed.
